@@ -75,7 +75,7 @@ def scan_assumptions(text):
 
 def run_verus(path, rlimit=None, threads=None, extra=()):
     cmd = ['verus', path, '--output-json', '--time', '--error-format=json',
-           '--multiple-errors', '4', '--num-threads', str(threads or os.cpu_count() or 8)]
+           '--multiple-errors', os.environ.get('VERIF_MULTI_ERRORS', '4'), '--num-threads', str(threads or os.cpu_count() or 8)]
     if rlimit:
         cmd += ['--rlimit', str(rlimit)]
     cmd += list(extra)
